@@ -81,8 +81,11 @@ def run(ctx, broken):
     for tag, m in mutations(rng, "proof", proof, nf, 0):
         add("proofdec", "proof", tag, m)
     pp = bytes.fromhex(enc["pp"][0])
-    for tag, m in mutations(rng, "pp", pp, nf // 2, 0):
+    for tag, m in mutations(rng, "pp", pp, nf // 2, 0) + [("truncated", pp[:c]) for c in (240, 241, 287, 288, 289, 240 + 48 * 3 + 1, len(pp) - 47)]:
         add("ppdec", "public-parameters", tag, m)
+        # property level: an encoding that is not "opening key + whole 48-byte points (at least one)" is not well formed
+        if len(m) <= 240 or (len(m) - 240) % 48 != 0:
+            cs[-1]["expect_prefix"] = "err"
     # identity where an opening key forbids it
     ident = bytes([0xc0]) + b"\x00" * 47
     m = bytearray(pp); m[0:48] = ident; add("ppdec", "public-parameters", "opening-key-g-identity", bytes(m))
